@@ -23,6 +23,8 @@ CLAIMS = {
 CLAIMS.update({
     "C03": dict(technique="static analysis: panic-precondition analysis over the full admissible (bits, level) range, stream-position agreement (loop/draw-count extraction) and guard-relation rules over MIR",
                 design="DESIGN.md section 5 C03"),
+    "C06": dict(technique="static analysis: who-may-construct and normalisation-dominance for cache keys, Eq/Hash projection agreement, insert/lookup index-relation agreement, interior-mutability scan of evaluator types, per-call key-derivation provenance, and term-by-term transcription of gen/eval against the draft's IDPF over MIR",
+                design="DESIGN.md section 5 C06"),
     "C07": dict(technique="static analysis: symbolic byte-count identities (polynomial normal forms per variant path) between encode and encoded_len, tag-table extraction, canonical-form guard relations, equality coverage over MIR",
                 design="DESIGN.md section 5 C07"),
     "C08": dict(technique="static analysis: panic-precondition analysis (interval evaluation of reconstructed operand terms under dominating guards, call-site substitution), loop-progress, tag-switch and narrowing-cast rules over MIR",
